@@ -135,6 +135,29 @@ def check_header(repo, prop, timeout_ms=20000, jobs=16, only=None):
         shutil.rmtree(work, ignore_errors=True)
 
 
+def print_context(repo, workdir):
+    from contracts import cxx_print as P
+    src = os.path.join(workdir, 'prt.cpp')
+    with open(src, 'w') as f:
+        f.write(P.DRIVER)
+    ix = A.load(src, [include_dir(repo)], 'prophy')
+    types_only = P.DRIVER.split('namespace prophy { namespace detail {')[0]
+    table = sizeof_table(types_only, ['prophy::generated::Fx', 'prophy::generated::En'], [include_dir(repo)], workdir)
+    cx = V.Cx(ix, P.all_contracts(False), table)
+    cx.types = {'Fx': {'fixed_size': 12, 'align': 4, 'min_size': 12}}
+    return cx
+
+
+def check_print_header(repo, timeout_ms=20000, jobs=16):
+    work = tempfile.mkdtemp(prefix='cxxvc-prt-')
+    try:
+        cx = print_context(repo, work)
+        res = verify_all('prt', cx, 'C18', timeout_ms, jobs, lambda q: 'prophy::detail::' in q)
+        return finish(res, cx, repo)
+    finally:
+        shutil.rmtree(work, ignore_errors=True)
+
+
 # --------------------------------------------------------------------------- generated code (per schema)
 
 VENV_PY = '/venv/bin/python'
@@ -171,7 +194,8 @@ def generated_context(repo, workdir, name, text, types, pool_types, restrict_siz
     allt = list(pool_types) + list(types)
     prefix = '#include "%s.ppf.hpp"\n' % name
     table = sizeof_table(prefix, ['prophy::generated::' + t.name for t in allt], inc, workdir)
-    cx = V.Cx(ix, G.all_contracts(restrict_sizers), table)
+    from contracts import cxx_print as P
+    cx = V.Cx(ix, P.all_contracts(True) + G.all_contracts(restrict_sizers), table)
     cx.types = G.type_table(allt)
     cx.encoded_byte_size = lambda n: encoded_byte_size(cx, n)
     cx.exec_gbs, cx.gbs_functions = G.exec_gbs_factory(cx)
